@@ -176,7 +176,7 @@ def handle_cex(rep, hn, ex, replay_fn, limit=40, ideal=False):
                                   "note": "model does not reproduce under IEEE arithmetic (rational idealisation); inconclusive"})
             continue
         if not fails:
-            rep.harness_errors.append("%s: solver model did not reproduce on the real code: %s failing=%s" % (hn, c, r.get("failing")))
+            rep.unreproduced.append({"harness": hn, "model": c, "failing": r.get("failing")})
             continue
         confirmed += 1
         for key, what in fails:
@@ -190,19 +190,22 @@ def Rdef(R, V, carry, i):
 
 
 def inv03(s, j):
-    """Inv03 of DESIGN §5 (contains Inv01 and Inv02).  s: dict of z3 terms, j: Skolem index.
-    Only for init_min <= 1 (state POSSIBLE_NOISE unreachable)."""
+    """Inv03 of DESIGN §5 (contains Inv01 and Inv02), extended to the initial phase (state POSSIBLE_NOISE, reachable only
+    when init_min > 1).  s: dict of z3 terms, j: Skolem index.  Bd is the silence bound of the statement:
+    mcs, or max(mcs, init_max_silence) when init_min > 1."""
     st, L, sil, start, cur, contig, P, V, R, carry, mx, ms, last_end, prev_cut = (
         s[k] for k in "st L sil start cur contig P V R carry mx ms last_end prev_cut".split())
+    im, ims, ic = s["im"], s["ims"], s["ic"]
+    Bd = z3.If(im > 1, z3.If(ims > ms, ims, ms), ms)
 
     def inr(i):
         return z3.And(0 <= i, i < L)
     return z3.And(
-        L >= 0, st >= 0, st <= 3, st != 2, sil >= 0, carry >= 0, carry <= ms,
+        L >= 0, st >= 0, st <= 3, sil >= 0, carry >= 0, carry <= ms,
         z3.Implies(st == 0, L == 0),
         z3.Implies(st != 0, z3.And(start + L == cur + 1, start >= 0, last_end < start, L < mx)),
         last_end <= cur, cur >= -1,
-        z3.Implies(contig, z3.And(st != 0, prev_cut, start == last_end + 1)),
+        z3.Implies(contig, z3.And(st != 0, st != 2, prev_cut, start == last_end + 1)),
         z3.Implies(z3.Not(contig), carry == 0),
         z3.Implies(z3.And(st != 0, L == 0), contig),
         z3.Implies(st == 3, z3.And(sil == 0, z3.Implies(L > 0, z3.And(V[L - 1], R[L - 1] == 0)),
@@ -210,7 +213,13 @@ def inv03(s, j):
         z3.Implies(st == 1, z3.And(sil >= 1, sil <= ms, z3.Implies(L > 0, R[L - 1] == sil),
                                    z3.Implies(L == 0, carry == sil),
                                    z3.Implies(sil < L, V[L - 1 - sil]), z3.Implies(sil >= L, contig))),
-        z3.Implies(inr(j), z3.And(P[j] == start + j, R[j] <= ms, Rdef(R, V, carry, j))),
+        # initial phase
+        z3.Implies(st == 2, z3.And(im > 1, L >= 1, ic >= 1, ic < im, sil <= ims, R[L - 1] == sil, sil < L, V[0],
+                                   z3.Implies(inr(j), R[j] <= ims))),
+        z3.Implies(z3.And(st == 2, sil < L, L - 1 - sil >= 0), Rdef(R, V, carry, L - 1 - sil)),
+        z3.Implies(z3.And(st == 2, sil < L), V[L - 1 - sil]),
+        z3.Implies(z3.And(st == 2, inr(j), j >= L - sil), z3.And(z3.Not(V[j]), R[j] == sil - (L - 1 - j))),
+        z3.Implies(inr(j), z3.And(P[j] == start + j, R[j] <= Bd, Rdef(R, V, carry, j))),
         z3.Implies(L > 0, z3.And(Rdef(R, V, carry, L - 1), Rdef(R, V, carry, z3.IntVal(0)))),
         z3.Implies(z3.And(st == 1, sil < L, L - 1 - sil >= 0), Rdef(R, V, carry, L - 1 - sil)),
         z3.Implies(z3.And(st == 1, inr(j), j >= L - sil), z3.And(z3.Not(V[j]), R[j] == sil - (L - 1 - j))),
@@ -218,18 +227,25 @@ def inv03(s, j):
     )
 
 
-def istep_harness(core, mode, kind, goals_for):
+def istep_harness(core, mode, kind, goals_for, with_init=True):
     """one real transition (_process(frame) or _post_process()) from an arbitrary state satisfying Inv03.
     goals_for(tokinfo) selects the step obligations of the property ('c01' | 'c02' | 'c03')."""
     def path(e):
         mn, mx, ms = I("min_length"), I("max_length"), I("mcs")
         e.assume(z3.And(mn >= 1, mn <= mx, ms >= 0, ms < mx))
-        tk = core.StreamTokenizer(validator, SymInt(mn), SymInt(mx), SymInt(ms), mode=mode)
+        if with_init:
+            im, ims = I("init_min"), I("init_max_silence")
+            e.assume(z3.And(im < mx, ims >= 0))
+            tk = core.StreamTokenizer(validator, SymInt(mn), SymInt(mx), SymInt(ms), init_min=SymInt(im), init_max_silence=SymInt(ims), mode=mode)
+        else:
+            im, ims = z3.IntVal(0), z3.IntVal(0)
+            tk = core.StreamTokenizer(validator, SymInt(mn), SymInt(mx), SymInt(ms), mode=mode)
+        Bd = z3.If(im > 1, z3.If(ims > ms, ims, ms), ms)
         tk._reinitialize()
         s = dict(st=I("st"), L=I("L"), sil=I("sil"), start=I("start"), cur=I("cur"), contig=z3.Bool("contig"),
                  P=z3.Array("P", z3.IntSort(), z3.IntSort()), V=z3.Array("V", z3.IntSort(), z3.BoolSort()),
                  R=z3.Array("R", z3.IntSort(), z3.IntSort()), carry=I("carry"), mx=mx, ms=ms,
-                 last_end=I("last_end"), prev_cut=z3.Bool("prev_cut"))
+                 last_end=I("last_end"), prev_cut=z3.Bool("prev_cut"), im=im, ims=ims, ic=I("ic"))
         j = I("j")
         e.assume(inv03(s, j))
         tk._state = SymInt(s["st"])
@@ -237,7 +253,7 @@ def istep_harness(core, mode, kind, goals_for):
         tk._silence_length = SymInt(s["sil"])
         tk._start_frame = SymInt(s["start"])
         tk._current_frame = SymInt(s["cur"])
-        tk._init_count = SymInt(I("ic"))
+        tk._init_count = SymInt(s["ic"])
         tk._contiguous_token = SymBool(s["contig"])
         tk._current_frame += 1
         try:
@@ -273,7 +289,7 @@ def istep_harness(core, mode, kind, goals_for):
                 ("c02", "len <= max_length"): n <= mx,
                 ("c02", "short only as remainder"): z3.Implies(
                     n < mn, z3.And(z3.BoolVal(not (mode & 2)), s["prev_cut"], ts == s["last_end"] + 1)),
-                ("c03", "run[j] <= mcs"): z3.Implies(inj, data.R[j] <= ms),
+                ("c03", "run[j] <= mcs (max(mcs, init_max_silence) with an initial phase)"): z3.Implies(inj, data.R[j] <= Bd),
                 ("c03", "first valid unless continuation"): z3.Or(data.V[0], s["contig"]),
                 ("c03", "some valid frame"): z3.Exists([w], z3.And(0 <= w, w < n, data.V[w])),
             })
@@ -289,7 +305,7 @@ def istep_harness(core, mode, kind, goals_for):
         if kind == "frame":
             s2 = dict(st=toint(tk._state), L=d2.n, sil=toint(tk._silence_length), start=toint(tk._start_frame),
                       cur=toint(tk._current_frame), contig=tobool(tk._contiguous_token), P=d2.P, V=d2.V, R=d2.R,
-                      carry=d2.carry, mx=mx, ms=ms, last_end=le2, prev_cut=pc2)
+                      carry=d2.carry, mx=mx, ms=ms, last_end=le2, prev_cut=pc2, im=im, ims=ims, ic=toint(tk._init_count))
             goals[("inv", "Inv03 preserved")] = inv03(s2, j)
         sel = {k: g for k, g in goals.items() if k[0] in goals_for or k[0] == "inv"}
         names = list(sel)
@@ -299,7 +315,7 @@ def istep_harness(core, mode, kind, goals_for):
         if r == "sat":
             failing = [" / ".join(k) for k in names if not z3.is_true(m.eval(sel[k], model_completion=True))]
             pre = {str(d): str(m[d]) for d in m.decls() if d.name() in
-                   ("st", "L", "sil", "carry", "contig", "v", "mcs", "max_length", "min_length", "start", "cur", "last_end", "prev_cut")}
+                   ("st", "L", "sil", "carry", "contig", "v", "mcs", "max_length", "min_length", "start", "cur", "last_end", "prev_cut", "init_min", "init_max_silence", "ic")}
             return {"status": "not_inductive", "failing": failing, "pre_state": pre}
         return {"status": "unknown"}
     return path
@@ -319,7 +335,7 @@ def run_istep(rep, core, goals_for, timeout_ms=30000):
                 closed = False
                 detail.append({"harness": hn, "failing": bad[0].get("failing"), "pre_state": bad[0].get("pre_state")} if bad else {"harness": hn, "failing": "not exhausted"})
     # base case: _reinitialize() from any state gives Inv03 (checked concretely on the symbolic object)
-    rep.inductive = {"closed": closed, "invariant": "Inv03 (DESIGN §5 C03; contains Inv01, Inv02); init_min <= 1",
+    rep.inductive = {"closed": closed, "invariant": "Inv03 (DESIGN §5 C03 and §10.5; contains Inv01, Inv02); all accepted parameter tuples incl. symbolic init_min / init_max_silence",
                      "not_inductive_at": detail[:4]}
     return closed
 
